@@ -61,6 +61,10 @@ class RunFaults(FaultPolicy):
         return False
 
 
+    def subscr_may_raise(self, node) -> bool:
+        return id(node) in self.faulty_subscripts
+
+
 _mr_cache: Dict[int, Dict[str, bool]] = {}
 
 
